@@ -117,7 +117,9 @@ impl Lim {
         self.inner.borrow_mut().last_ttl = None;
         self.inner.borrow_mut().last_get_stale = false;
         let rl = &mut self.rl;
+        crate::watchdog::enter(format!("{{\"rate_limit[key_id,max_burst,count,period,quantity,now_ns]\":[{},{},{},{},{},{}],\"store\":{:?}}}", r.key, r.b, r.count, r.period, r.q, r.now, self.inner.borrow().store.kind_name()));
         let res = catch_unwind(AssertUnwindSafe(|| rl.rate_limit(&ks, r.b, r.count, r.period, r.q, tm)));
+        crate::watchdog::leave();
         match res {
             Err(e) => {
                 let msg = if let Some(s) = e.downcast_ref::<&str>() { s.to_string() } else if let Some(s) = e.downcast_ref::<String>() { s.clone() } else { "?".into() };
